@@ -65,7 +65,7 @@ func (e *Enc) encodeInstrs(fr *Frame, b *ssa.BasicBlock, st *State) {
 			y.T = in.Type()
 			// pointer conversions between distinct named struct types would change heap keys
 			if p1, ok := in.X.Type().Underlying().(*types.Pointer); ok {
-				if p2, ok := in.Type().Underlying().(*types.Pointer); ok && typeStr(p1.Elem()) != typeStr(p2.Elem()) {
+				if p2, ok := in.Type().Underlying().(*types.Pointer); ok && typeStr(p1.Elem()) != typeStr(p2.Elem()) && !sameBasicCell(p1.Elem(), p2.Elem()) {
 					e.unsupportedf("pointer conversion %s -> %s", typeStr(in.X.Type()), typeStr(in.Type()))
 				}
 			}
@@ -1136,4 +1136,11 @@ func (e *Enc) encRunDefers(fr *Frame, st *State, in *ssa.RunDefers) {
 		m := e.mergeStates(fr.prefix+"defer", sts, conds)
 		*st = *m
 	}
+}
+
+// sameBasicCell: both types are (named) basic types with the same underlying basic type: their cells share one heap.
+func sameBasicCell(a, b types.Type) bool {
+	x, ok1 := a.Underlying().(*types.Basic)
+	y, ok2 := b.Underlying().(*types.Basic)
+	return ok1 && ok2 && x.Kind() == y.Kind()
 }
